@@ -70,23 +70,24 @@ theorem or_inference_leaves_sound (F : List (List String)) (N R : List String) (
   infer_or_leaves_sound F N R hR hdis s hs T hT hsame hne
 
 /-- **C06, the OR inference on arbitrary subtrees**: the children of the parallel node are process trees themselves
-(plain events, tau, choices — what `classify` places), the sets they produce given by the semantics `PTree.sem` of the
+(any: after the repair c6e9ec1 `classify` places every child, one with another operator among the mandatory ones),
+the sets they produce given by the semantics `PTree.sem` of the
 miner's trees (tau: the empty set; X: one child; +: all children; O: a non-empty selection).  If the mandatory children
 produce only non-empty sets and share no event name with the optional branches, then for every observed family `F` the
 node `inferOrNode F` puts in the place of `+(cs…)` — the executable model that the check runs against the real
 `infer_or_gate_from_node` — produces every non-empty set of `F` that the raw node produces, whichever of the three
 shapes the test on `F` selects. -/
-theorem or_inference_tree_sound (F : List (List String)) (cs : List PTree) (hcls : ∀ c ∈ cs, Classified c)
+theorem or_inference_tree_sound (F : List (List String)) (cs : List PTree)
     (hne : ∀ c ∈ (classify cs).2, ∀ s, c.sem s → s ≠ [])
     (hdisj : ∀ x, x ∈ PTree.labelsL (classify cs).2 →
       x ∉ PTree.labelsL ((classify cs).1.flatMap grandchildrenOf))
     (s : List String) (hs : s ∈ F) (hsne : s ≠ []) (hraw : (PTree.node .and cs).sem s) :
     (inferOrNode F (.node .and cs)).sem s :=
-  infer_or_tree_sound F cs hcls hne hdisj s hs hsne hraw
+  infer_or_tree_sound F cs hne hdisj s hs hsne hraw
 
 /-- … and the same for a parallel node anywhere below the top, where the sets it has to produce are the projections of
 the observed sets onto its own event names: `s` agrees with some observed `s0` on the names of the node -/
-theorem or_inference_tree_sound_below (F : List (List String)) (cs : List PTree) (hcls : ∀ c ∈ cs, Classified c)
+theorem or_inference_tree_sound_below (F : List (List String)) (cs : List PTree)
     (hne : ∀ c ∈ (classify cs).2, ∀ s, c.sem s → s ≠ [])
     (hdisj : ∀ x, x ∈ PTree.labelsL (classify cs).2 →
       x ∉ PTree.labelsL ((classify cs).1.flatMap grandchildrenOf))
@@ -95,7 +96,7 @@ theorem or_inference_tree_sound_below (F : List (List String)) (cs : List PTree)
       x ∈ PTree.labelsL ((classify cs).1.flatMap grandchildrenOf)) → (x ∈ s0 ↔ x ∈ s))
     (hsne : s ≠ []) (hraw : (PTree.node .and cs).sem s) :
     (inferOrNode F (.node .and cs)).sem s :=
-  infer_or_tree_sound_proj F cs hcls hne hdisj s hs hsne hraw
+  infer_or_tree_sound_proj F cs hne hdisj s hs hsne hraw
 
 /-- non-vacuity: `+(c, X(tau, X(a, b)))` — an optional branch that is itself a choice — with the observations `{c}`,
 `{c, a}` meets every hypothesis, and the rewritten node produces `{c, a}` -/
@@ -105,9 +106,6 @@ example : (inferOrNode [["c"], ["c", "a"]]
       ([.node .xor [.tau, .node .xor [.leaf "a", .leaf "b"]]], [.leaf "c"]) := by
     simp [classify, PTree.isTau]
   apply or_inference_tree_sound
-  · intro c hc
-    simp only [List.mem_cons, List.mem_nil_iff, or_false] at hc
-    rcases hc with rfl | rfl <;> simp [Classified]
   · rw [hcl]
     intro c hc s hs
     simp only [List.mem_singleton] at hc
